@@ -14,6 +14,7 @@ import (
 	"sort"
 	"strings"
 	"sync"
+	"time"
 
 	"github.com/nspcc-dev/neofs-node/verif/lib/ev"
 	"github.com/nspcc-dev/neofs-node/verif/lib/seqx"
@@ -116,6 +117,7 @@ func oracle(s *mw.Sys) (string, string) {
 	for _, sp := range mw.Specs {
 		x := sp.Name
 		a := o.A[x]
+		firstFail := len(fails)
 		stored, phys := m.Stored(x)
 		st := m.Status(x, false)
 		removedCnr := m.C[sp.Cnr].Removed
@@ -263,6 +265,13 @@ func oracle(s *mw.Sys) (string, string) {
 				fail(fmt.Sprintf("cross:Exists=%s:ExistsIgnoringExpiration=%s:kind=%s", a.Exists, a.ExistsNoExp, sp.Kind), "ignoring expiration makes "+x+" less available")
 			}
 		}
+		// One structural class for every view failure on an object protected by several locks of
+		// which some, but not all, are live (expired / garbage-marked ones next to a live one).
+		if ls, ll := m.LockInfo(x); len(fails) > firstFail && ls >= 2 && ll >= 1 && ll < ls {
+			what := fails[firstFail].what
+			fails = append(fails[:firstFail], failure{"lock:several-locks-on-one-object:some-not-live-but-one-live:treated-as-unlocked",
+				fmt.Sprintf("%s (%d lock objects target %s, %d of them live)", what, ls, x, ll)})
+		}
 	}
 
 	// ---- EC part resolution for the EC families ----
@@ -278,23 +287,22 @@ func oracle(s *mw.Sys) (string, string) {
 		if want == 0 || got == mw.ClsOther {
 			return
 		}
-		modelFired := false
-		if got.St()&want == 0 {
-			modelFired = true
-			if got == mw.ClsPresent && pstored && m.Status(parent, false) == mw.Avail {
-				// the parent is fine, the part itself is not: one structural class
-				fail(fmt.Sprintf("ec:resolves-part-that-is-not-available:part-own-status=%s:parent=available", m.OwnStatus(part)),
-					fmt.Sprintf("ResolveECPart(%s, index of %s) returns %s although the rules give it status {%s} (Exists(%s) = %s)", parent, part, gotPart, want, part, o.A[part].Exists))
-			} else {
-				fail(fmt.Sprintf("ec:want=%s:got=%s:part[%s]:parent[%s]", want, got, ctx(m, part), ctx(m, parent)),
-					fmt.Sprintf("ResolveECPart(%s -> %s) reports %s, rules allow {%s}", parent, part, got, want))
-			}
-		}
 		if got == mw.ClsPresent && gotPart != part {
 			fail("ec:wrong-part", fmt.Sprintf("ResolveECPart(%s, idx of %s) returned %s", parent, part, gotPart))
+			return
 		}
-		if !modelFired && got == mw.ClsPresent && o.A[gotPart] != nil && o.A[gotPart].Exists != mw.ClsPresent {
-			fail(fmt.Sprintf("cross:ResolveECPart-returns-part:Exists(part)=%s", o.A[gotPart].Exists), fmt.Sprintf("ResolveECPart(%s) resolves %s which Exists reports as %s", parent, gotPart, o.A[gotPart].Exists))
+		partUnavailable := got == mw.ClsPresent && o.A[part].Exists != mw.ClsPresent
+		switch {
+		case got == mw.ClsPresent && pstored && m.Status(parent, false)&mw.Avail != 0 && (got.St()&want == 0 || partUnavailable):
+			// the parent is fine, the resolved part itself is not (model verdict and/or the part's own
+			// Exists answer): one structural class per observed status of the part
+			fail(fmt.Sprintf("ec:resolved-part-is-not-available:Exists(part)=%s", o.A[part].Exists),
+				fmt.Sprintf("ResolveECPart(%s, index of %s) returns %s although the rules give the part status {%s} and Exists(%s) = %s", parent, part, gotPart, want, part, o.A[part].Exists))
+		case got.St()&want == 0:
+			fail(fmt.Sprintf("ec:want=%s:got=%s:part[%s]:parent[%s]", want, got, ctx(m, part), ctx(m, parent)),
+				fmt.Sprintf("ResolveECPart(%s -> %s) reports %s, rules allow {%s}", parent, part, got, want))
+		case partUnavailable:
+			fail(fmt.Sprintf("cross:ResolveECPart-returns-part:Exists(part)=%s", o.A[part].Exists), fmt.Sprintf("ResolveECPart(%s) resolves %s which Exists reports as %s", parent, gotPart, o.A[part].Exists))
 		}
 	}
 	ecCheck("E", "E0", o.A["E"].EC, o.A["E"].ECPart)
@@ -328,22 +336,34 @@ func oracle(s *mw.Sys) (string, string) {
 
 func main() {
 	r := ev.Start("C01", ev.ModelChecking)
+	if r.Quick() && r.Budget > 70*time.Second {
+		r.Budget = 70 * time.Second // leave room for the build inside the 90 s quick-tier envelope
+	}
 	scratch := mw.MkScratch("verif-c01")
 	defer os.RemoveAll(scratch)
 
-	ops := append(mw.FullAlphabet(), mw.MacroOps()...)
-	depth := 2
+	full := append(mw.FullAlphabet(), mw.MacroOps()...)
+	// reduced alphabet for the deeper run: the letters that change a status (locks incl. the second
+	// lock on R1, marks on objects and on a lock, tombstones, revivals, epoch ticks, the split chain,
+	// the EC and the two-level family, container removal) plus the scripted prefixes
+	status := append(mw.OpsByName(
+		"Put(R1)", "Put(L1)", "Put(L4)", "Put(T1)", "Put(C1)", "Put(C2)", "Put(T2)", "Put(E0)", "Put(D0)", "Epoch+1",
+		"MarkGarbage(R1)", "MarkGarbage(L1)", "MarkGarbage(P)", "MarkGarbage(E)", "MarkRedundant(R1)",
+		"Delete(T1)", "Delete(C2)", "Revive(R1)", "Revive(C2)", "Revive(P)", "InhumeContainer(cA)"), mw.MacroOps()...)
+	fullDepth, statusDepth := 2, 3
 	if r.Thorough() {
-		depth = 3
+		fullDepth, statusDepth = 3, 4
 	}
-	cfg := seqx.Config{NumOps: len(ops), MaxDepth: depth, CheckInit: true,
-		OpName: func(i int) string { return ops[i].String() },
-		New:    func() seqx.Sys { return mw.NewSys(ops, oracle) }}
+	mk := func(ops []mw.Op, depth int) seqx.Config {
+		return seqx.Config{NumOps: len(ops), MaxDepth: depth, CheckInit: true,
+			OpName: func(i int) string { return ops[i].String() },
+			New:    func() seqx.Sys { return mw.NewSys(ops, oracle) }}
+	}
 
 	if r.Replay != "" {
 		var rp struct{ Ops []string }
 		r.LoadReplay(&rp)
-		fp, what, err := seqx.Replay(cfg, rp.Ops)
+		fp, what, err := seqx.Replay(mk(full, 0), rp.Ops)
 		if err != nil {
 			os.RemoveAll(scratch)
 			r.Fatal("%v", err)
@@ -355,7 +375,11 @@ func main() {
 		r.Finish()
 	}
 
-	res := seqx.Run(r, cfg)
+	res := seqx.Run(r, mk(full, fullDepth))
+	var res2 seqx.Result
+	if !r.Expired() {
+		res2 = seqx.Run(r, mk(status, statusDepth))
+	}
 	if debug {
 		var ks []string
 		for k := range dbgFails {
@@ -366,10 +390,12 @@ func main() {
 			fmt.Printf("DBG %s\n      %s\n", k, dbgFails[k])
 		}
 	}
+	r.Exhaustive(res.Exhaustive && res2.Exhaustive)
+	r.Set("depth_completed", fmt.Sprintf("full alphabet: %d, status alphabet: %d", res.DepthCompleted, res2.DepthCompleted))
 	r.Set("outcome_classes", len(outcomes))
-	r.Set("alphabet_size", len(ops))
+	r.Set("alphabet_size", fmt.Sprintf("full %d (incl. %d macros), status %d", len(full), len(mw.MacroOps()), len(status)))
 	r.Set("universe_addresses", len(mw.Specs))
-	r.Rule(fmt.Sprintf("BFS with state dedup over all sequences of <= %d letters from the empty metabase; alphabet = %d elementary operations (Put of every physical universe member, Epoch+1, MarkGarbage default/redundant, Delete, Revive, InhumeContainer, DeleteContainer on hand-picked targets) + %d scripted prefixes (macros, enabled in the initial state only) that seed dense situations; state key = raw bbolt dump + epoch + reference model; a case is non-trivial when it reaches a state not seen before; in every transition all %d addresses are queried through every view (depth completed: %d)", depth, len(mw.FullAlphabet()), len(mw.MacroOps()), len(mw.Specs), res.DepthCompleted))
+	r.Rule(fmt.Sprintf("two BFS runs with state dedup from the empty metabase: (1) all sequences of <= %d letters over the full alphabet = %d elementary operations (Put of every physical universe member, Epoch+1, MarkGarbage default/redundant, Delete, Revive, InhumeContainer, DeleteContainer on hand-picked targets) + %d scripted prefixes (macros, enabled in the initial state only) that seed dense situations; (2) all sequences of <= %d letters over a reduced %d-letter status alphabet (locks incl. two locks on one object, marks on objects and on a lock, tombstones, revivals, epoch ticks, split chain, EC and two-level families, container removal, same prefixes); state key = raw bbolt dump + epoch + reference model; a case is non-trivial when it reaches a state not seen before; after every transition all %d addresses are queried through every view (depths completed: %d and %d)", fullDepth, len(mw.FullAlphabet()), len(mw.MacroOps()), statusDepth, len(status), len(mw.Specs), res.DepthCompleted, res2.DepthCompleted))
 	r.Assume("single-threaded histories on one metabase; acceptance of each operation is taken from the implementation's return value",
 		"where the property text is silent (precedence between several removal reasons, tombstone vs live lock, garbage mark requested for an address that is not stored, first split part without parent header, redundant marks in listing, Exists(ignoreExpiration) with an expired lock) any of the plausible answers is accepted")
 	os.RemoveAll(scratch)
